@@ -416,8 +416,11 @@ class FindScpTask(Task):
     shard = True
     functions = [FIND, VALID]
 
-    def __init__(self, prefix="C20/"):
+    def __init__(self, prefix="C20/", table="QR_FIND_SERVICE_CLASS_STATUS"):
         self.prefix = prefix
+        self.table = table              # the status table of the service class that dispatches to _c_find_scp
+        if table != "QR_FIND_SERVICE_CLASS_STATUS":
+            self.name = f"ServiceClass._c_find_scp/{table}"
 
     def config(self, repo):
         c = svc_config(self.prefix)
@@ -504,7 +507,7 @@ class FindScpTask(Task):
     def body(self, I):
         g = I.ghost
         P = f"{self.prefix}{FIND}"
-        me = mk_svc(I, "ServiceClass")
+        me = mk_svc(I, "ServiceClass", self.table)
         req, mid = mk_request(I, "C_FIND")
         cx, cid = mk_context(I)
         g["mid"], g["cid"] = mid, cid
@@ -1051,3 +1054,190 @@ class SingleScpTask(Task):
         flags = ev.args[1:4]
         want = [I.getattr(ts, n) for n in ("is_implicit_VR", "is_little_endian", "is_deflated")]
         return len(flags) == 3 and all(isinstance(f, SV) and isinstance(w, SV) and f.e.eq(w.e) for f, w in zip(flags, want))
+
+
+# ---------------------------------------------------------------------------------------------
+# Relevant Patient Information Query: its own C-FIND SCP (at most one match)   (C20, C21)
+# ---------------------------------------------------------------------------------------------
+RPI = f"{SC}:RelevantPatientInformationQueryServiceClass.SCP"
+
+
+class OneShotGen:
+    """the handler's generator, consumed with a single next()"""
+
+    def truth(self, I):
+        return True
+
+    def sym_next(self, I, default):
+        g = I.ghost
+        k = I.choose(4, "next(handler generator)")
+        g["elem_kind"] = ["ok", "exhausted", "exception", "not-a-pair"][k]
+        if k == 1:
+            I.raise_("StopIteration")
+        if k == 2:
+            raise PyRaise(ExcVal("Exception", ("handler failed",)))
+        if k == 3:
+            return [None, 7, (1, 2, 3)][I.choose(3, "malformed")]
+        sk = I.choose(len(STATUS_KINDS), "status kind")
+        st = I.input("int", "handler_status")
+        g["handler_status"], g["status_kind"] = st, sk
+        dk = I.choose(3, "identifier kind")
+        g["ident_kind"] = dk
+        ident = [None, Env("identifier_encodable"), Env("identifier_unencodable")][dk]
+        return (handler_status_value(I, sk, st), ident)
+
+
+class RelevantPatientTask(Task):
+    name = "RelevantPatientInformationQueryServiceClass.SCP"
+    functions = [RPI, VALID]
+    shard = True
+
+    def config(self, repo):
+        c = svc_config("C20/")
+
+        def trigger(I, args, kw):
+            I.trace.append(Ev("handler", (args[1].fields.get("name"), args[2])))
+            k = I.choose(4, "handler call")
+            if k == 1:
+                raise PyRaise(ExcVal("Exception", ("handler failed",)))
+            if k == 2:
+                return None
+            if k == 3:
+                return 5
+            return OneShotGen()
+        c.summaries["pynetdicom.events:trigger"] = trigger
+
+        def enc(I, args, kw):
+            d = args[0]
+            if isinstance(d, Env) and d.path == "identifier_encodable":
+                return ghost_bytes(I, "encoded_identifier", 1)[2]
+            return b""
+        c.summaries["pynetdicom.dsutils:encode"] = enc
+        c.summaries["pynetdicom.dsutils:decode"] = lambda I, a, k: Env("decoded_request_identifier")
+        return c
+
+    def body(self, I):
+        g = I.ghost
+        P = f"C20/{RPI}"
+        me = mk_svc(I, "RelevantPatientInformationQueryServiceClass", "RELEVANT_PATIENT_SERVICE_CLASS_STATUS")
+        req, mid = mk_request(I, "C_FIND")
+        cx, cid = mk_context(I)
+        g["mid"], g["cid"] = mid, cid
+        kind, val = I.run_function(I.repo.func(RPI), [me, req, cx])
+        if kind == "raise":
+            I.ob(f"{P}/no-exception-escapes-the-SCP-(it-would-end-in-an-abort-without-a-final-response)", False, detail=f"{val!r}")
+            return
+        I.ob(f"{P}/no-exception-escapes-the-SCP-(it-would-end-in-an-abort-without-a-final-response)", True)
+        g["phase"] = "single"
+        check_responses(I, P, mid, cid, "ended", repo_query=z3.BoolVal(False), allow_no_final=not_established_seen(I))
+        hs = [e for e in I.trace if e.name == "handler"]
+        I.ob(f"{P}/the-handler-is-invoked-exactly-once-with-the-request", len(hs) == 1 and hs[0].args[0] == "EVT_C_FIND")
+        sends = [e for e in I.trace if e.name == "send_msg"]
+        I.ob(f"{P}/at-most-one-Pending-response-(the-service-returns-at-most-one-match)", len(sends) <= 2)
+        # the abort() variant handed to the handler is restored on every path
+        sets = [e.args[2] for e in I.trace if e.name == "setattr" and e.args[1] == "abort"]
+        I.ob(f"{P}/the-blocking-abort-is-restored-after-the-handler-ran", bool(sets) and getattr(sets[-1], "path", "").endswith("_abort_blocking"),
+             detail=repr(sets[-1:]))
+        if sends and g.get("elem_kind") == "ok":
+            s = I._num(sends[0].args[0]["_status"], "int")
+            sk, dk = g["status_kind"], g["ident_kind"]
+            hsv = g["handler_status"].e
+            if sk in (0, 1, 4):
+                # 0xFF01 is of the Pending category but not defined for this service (its table lists 0xFF00 only): it cannot
+                # be sent as the last response (C20) and is answered as an invalid status
+                pend_unenc = z3.And(hsv == 0xFF00, z3.BoolVal(dk != 1))
+                I.ob(f"C21/{RPI}/response-status-is-the-handlers-status-(or-0xC312-for-an-unencodable-pending-identifier)",
+                     z3.Implies(z3.And(hsv >= 0, hsv <= 65535, hsv != 0xFF01), z3.If(pend_unenc, s == 0xC312, s == hsv)))
+                I.ob(f"C21/{RPI}/a-Pending-status-the-service-does-not-define-gives-0xC002", z3.Implies(hsv == 0xFF01, s == 0xC002))
+            elif sk == 2:
+                I.ob(f"C21/{RPI}/dataset-without-Status-gives-0xC001", s == 0xC001)
+            else:
+                I.ob(f"C21/{RPI}/invalid-status-type-gives-0xC002", s == 0xC002)
+        if sends and g.get("elem_kind") == "exception":
+            I.ob(f"C21/{RPI}/handler-exception-gives-0xC311", I._num(sends[-1].args[0]["_status"], "int") == 0xC311)
+
+
+# ---------------------------------------------------------------------------------------------
+# the dispatching SCP methods of every service class   (C20)
+# ---------------------------------------------------------------------------------------------
+IMPL_FOR = {"C_FIND": "_c_find_scp", "C_GET": "_get_scp", "C_MOVE": "_move_scp", "N_ACTION": "_n_action_scp", "N_CREATE": "_n_create_scp",
+            "N_DELETE": "_n_delete_scp", "N_EVENT_REPORT": "_n_event_report_scp", "N_GET": "_n_get_scp", "N_SET": "_n_set_scp"}
+REQ_CLASSES = ["C_ECHO", "C_STORE", "C_FIND", "C_GET", "C_MOVE", "N_ACTION", "N_CREATE", "N_DELETE", "N_EVENT_REPORT", "N_GET", "N_SET"]
+QR_TABLE = {"_c_find_scp": "QR_FIND_SERVICE_CLASS_STATUS", "_get_scp": "QR_GET_SERVICE_CLASS_STATUS", "_move_scp": "QR_MOVE_SERVICE_CLASS_STATUS"}
+
+
+def dispatcher_classes(repo):
+    out = []
+    for modn in (SC, "pynetdicom.service_class_n"):
+        m = repo.module(modn)
+        for cn, ci in m.classes.items():
+            if "SCP" in ci.methods and cn not in ("ServiceClass", "VerificationServiceClass", "StorageServiceClass",
+                                                  "RelevantPatientInformationQueryServiceClass"):
+                out.append((modn, cn))
+    return out
+
+
+class DispatchTask(Task):
+    """<ServiceClass>.SCP(req, context): hands the request to exactly one implementation - the one for the request's
+    DIMSE type - with the request and context unchanged, or raises ValueError (the request type is not valid for the
+    service); it sends nothing itself"""
+
+    def __init__(self, modn, cn):
+        self.modn, self.cn = modn, cn
+        self.fn = f"{modn}:{cn}.SCP"
+        self.name = f"{cn}.SCP"
+        self.functions = [self.fn]
+
+    def config(self, repo):
+        c = svc_config("C20/")
+        for impl in IMPL_FOR.values():
+            owner = "QueryRetrieveServiceClass" if impl in ("_get_scp", "_move_scp") else "ServiceClass"
+
+            def summary(I, args, kw, impl=impl):
+                I.trace.append(Ev("impl", (impl, args[0], args[1], args[2], I.getattr(args[0], "statuses"))))
+                return None
+            c.summaries[f"{SC}:{owner}.{impl}"] = summary
+        return c
+
+    def body(self, I):
+        P = f"C20/{self.fn}"
+        ci = I.repo.cls(f"{self.modn}:{self.cn}")
+        me = Env("svc", cls=ci)
+        me.attrs["assoc"] = Env("svc.assoc")
+        rc = REQ_CLASSES[I.choose(len(REQ_CLASSES), "request type")]
+        req = Obj(I.repo.cls(f"{DP}:{rc}"), tag="request")
+        cx, cid = mk_context(I)
+        kind, val = I.run_function(I.repo.func(self.fn), [me, req, cx])
+        calls = [e for e in I.trace if e.name == "impl"]
+        sends = [e for e in I.trace if e.name == "send_msg"]
+        I.ob(f"{P}/the-dispatcher-sends-nothing-itself", not sends)
+        if kind == "raise":
+            I.ob(f"{P}/a-request-it-does-not-serve-raises-ValueError-before-anything-is-invoked",
+                 val.cls_name == "ValueError" and not calls, detail=f"{rc}: {val!r}")
+            return
+        I.ob(f"{P}/exactly-one-implementation-is-invoked-for-a-request-it-serves", len(calls) == 1, detail=f"{rc}: {len(calls)} calls")
+        if len(calls) != 1:
+            return
+        impl, slf, r, c_, table = calls[0].args
+        I.ob(f"{P}/the-implementation-matches-the-requests-DIMSE-type", IMPL_FOR.get(rc) == impl, detail=f"{rc} -> {impl}")
+        I.ob(f"{P}/request-and-context-are-passed-on-unchanged", slf is me and r is req and c_ is cx)
+        if self.cn == "QueryRetrieveServiceClass":
+            want = I.module_ns(I.repo.module("pynetdicom.status"))[QR_TABLE[impl]]
+            I.ob(f"{P}/the-status-table-of-the-operation-is-selected-before-the-implementation-runs", table is want or table == want)
+
+
+def find_scp_tables(repo):
+    """status tables of the service classes whose SCP dispatches C-FIND requests to ServiceClass._c_find_scp (read from the
+    AST: the class attribute `statuses`; QueryRetrieveServiceClass.SCP selects QR_FIND_SERVICE_CLASS_STATUS itself, which
+    DispatchTask proves)"""
+    out = ["QR_FIND_SERVICE_CLASS_STATUS"]
+    for modn, cn in dispatcher_classes(repo):
+        ci = repo.cls(f"{modn}:{cn}")
+        src = ast.unparse(ci.methods["SCP"].node)
+        if "_c_find_scp" in src and cn != "QueryRetrieveServiceClass":
+            expr = ci.attrs.get("statuses")
+            if expr is None or not isinstance(expr, ast.Name):
+                raise Unsupported(f"{cn}.statuses is not a module-level table name")
+            if expr.id not in out:
+                out.append(expr.id)
+    return out
